@@ -95,6 +95,25 @@ CLAIMED = {
          "window, limit, chosen tuples and final alignment must coincide at every iteration; oracle answers and the result judged by the verified "
          "partition checker; disorder vs exact sums; >= best, = best on a full window; job dispatch of fast-mode gamma observed.",
          TB + "The window optimiser is an oracle (judged by C01/C02); the cost estimate of measure_best_window_size is not modelled."),
+ "C15": ("4/C15", "validity theorems for every draw stream + recorded draws replayed in the model (parameters and requested primitives compared)",
+         "Theorems: for EVERY stream of draws the sample has exactly the ground-truth annotators, is non-empty, every unit is at least the precision "
+         "long and carries a listed category; durations are redrawn until long enough; category weights sum to 1, variances >= 0, gap list as stated. "
+         "Tie: init_sampling's measured parameters equal the extracted model's exact statistics of the reference; samples drawn with np.random.* "
+         "recorded must request exactly the primitives and parameters the model prescribes and equal the model's replay of the recorded values.",
+         TB + "PARTIAL: that np.random.normal / choice follow their laws is NumPy's (a frequency screen in thorough is supporting only and can never raise a violation)."),
+ "C16": ("4/C16", "availability-invariant theorems (float and integer pivots) + recorded / scripted draws replayed in the model",
+         "Theorems: removing a zone leaves exactly the available points at least dist away; for every contract-respecting stream pivots lie in the bounds and "
+         "pivots drawn while segments remain are >= dist from all earlier ones (float); integer pivots are whole and apart whenever the chosen segment holds a "
+         "whole number; sampled annotators are wrapped translations (count, durations, labels kept); the ORIGINAL zone removal and integer rule are refuted "
+         "(both repaired by fix commits). Tie: sample_from_continuum with np.random.* recorded: offered segments, weights, uniform bounds, annotator list and "
+         "the sampled units must be the extracted model's; _remove_pivot_segment compared alone; scripted witness replayed.",
+         TB + "PARTIAL: laws of the primitives are NumPy's; separation is claimed while segments remain."),
+ "C19": ("4/C19", "confinement theorems per perturbation + recorded draws replayed in the model of corpus_shuffle",
+         "Theorems: false negatives only remove and never empty an annotator; false positives only add; category shuffling keeps segments; shifting moves "
+         "ends only (same category, start < end) and cannot add units; a real split keeps the total duration and adds one unit (fresh pieces); magnitude 0 "
+         "changes nothing; positive durations and the number of annotators are preserved. Tie: corpus_shuffle over magnitudes x annotators x flag "
+         "combinations with np.random.* recorded; the extracted model's replay must equal the library's corpus; output-level clauses checked directly.",
+         TB + "PARTIAL: laws of the primitives; count-based clauses carry a freshness side condition; class constants re-read each run."),
 }
 
 checks = []
